@@ -22,6 +22,7 @@ def main() -> None:
     live, detail = c06.probe_findings(chk0, builder)
     print('live:', sorted(live), flush=True)
     groups = collections.defaultdict(list)
+    shown = set()
     for seed in range(first, first + n):
         chk = core.Check('C06', 'quick', seed)
         gen = dg.Gen(chk.rng, core.REPO)
@@ -40,6 +41,18 @@ def main() -> None:
                 for m in (c06.closure_oracle(r, cfg) if run else []):
                     groups[('ORACLE', c06.cfg_key(cfg), re.sub(r'\S+/', '', m)[:100])].append((seed, ci, cases[ci]))
             jobs += c06.make_jobs(ci, r, configs)
+            exe = os.path.join(core.BUILD, 'ocaml', 'c06', 'driver.exe')
+            if os.path.exists(exe):
+                reqs, idx = [], []
+                for cfg in configs:
+                    run = r['runs'].get(c06.cfg_key(cfg))
+                    if run and run['ok']:
+                        reqs.append(c06.model_lines(r, cfg, 'F-C06-CPP-VARIANT' in live))
+                        idx.append(cfg)
+                types = {c06.tkey(t): t for t in r['types']}
+                for cfg, m in zip(idx, c06.run_model(exe, reqs)):
+                    for dd in c06.compare_model(m, r['runs'][c06.cfg_key(cfg)], cfg, types)[:2]:
+                        groups[('MODEL', c06.cfg_key(cfg), re.sub(r'\S+/', '', dd)[:140])].append((seed, ci, cases[ci]))
         st = {}
         with ThreadPoolExecutor(8) as ex:
             for v in ex.map(lambda j: c06.judge(j, builder, live, st), jobs):
@@ -48,6 +61,10 @@ def main() -> None:
                     fe = re.sub(r"[‘’']", "'", fe)
                     groups[(v['config'] + '+' + v['variant'], fe[:110])].append((seed, v['case_index'], v['header'], v['type']))
         print('seed', seed, 'jobs', len(jobs), 'unexplained so far', sum(len(v) for v in groups.values()), flush=True)
+        for k in groups:
+            if k not in shown:
+                shown.add(k)
+                print('   NEW', k, [x[:4] if len(x) == 4 else x[:2] for x in groups[k][:2]], flush=True)
         import shutil
         shutil.rmtree(wd, ignore_errors=True)
     for k, v in sorted(groups.items(), key=lambda kv: -len(kv[1])):
